@@ -351,6 +351,23 @@ class SimE(Simulator):
                                   never=["simulate"], p=0.3)
         method = gen.gen_method(rng, feats, max_lines=rng.randint(3, 16), time_scale=1.0)
         ops: list[list] = [["user", "Start"]]
+        if rng.random() < 0.2:
+            # two injected snippets alive at the same time: a Watch that waits for its condition, then a second snippet, then
+            # a cancel (or force) of the first snippet's Watch, then the condition comes true
+            u = rng.randint(100, 999)
+            ops.append(["pv", "LVL", 10.0])
+            ops.append(["tick", rng.choice([1, 2, 4]), 0.1])
+            ops.append(["inject", rng.choice([f"Mark: ia{u}\nWatch: LVL > 77\n    Mark: iwb{u}",
+                                              f"Watch: LVL > 77\n    Mark: iwb{u}",
+                                              f"Spin\nWatch: LVL > 77\n    Mark: iwb{u}"])])
+            ops.append(["tick", rng.choice([1, 2, 3]), 0.1])
+            ops.append(["inject", rng.choice(["LongC: 6", "Spin", f"Mark: ib{u}\nLongC: 6", f"Mark: ib{u}", "Churn",
+                                              f"Watch: PV2 > 900\n    Mark: ic{u}"])])
+            ops.append(["tick", rng.choice([1, 2]), 0.1])
+            ops.append([rng.choice(["cancel", "cancel", "force"]), 0, "named:Watch: LVL > 77"])
+            ops.append(["tick", rng.choice([2, 4]), 0.1])
+            ops.append(["pv", "LVL", 90.0])
+            ops.append(["tick", 6, 0.1])
         for i in range(rng.randint(1, 5)):
             ops.append(["tick", rng.choice([1, 2, 3, 4, 6, 9, 14]), 0.1])
             if rng.random() < 0.3:
